@@ -154,9 +154,9 @@ func aggTraceGen(r *Rand, tier string) []string {
 		n = 8
 	}
 	for i := 0; i < n; i++ {
-		c := base(Pick(r, []int{6, 8, 10}))
+		c := base(Pick(r, []int{14, 18}))
 		c.batch, c.workers, c.buffer = 1, Pick(r, []int{1, 2}), 1
-		c.sampleUs = Pick(r, []int{25000, 45000, 60000})
+		c.sampleUs = Pick(r, []int{30000, 45000})
 		mk(c)
 	}
 	// (a) slow / stalled readers: the 100ms ticker renders while input is still arriving
